@@ -78,6 +78,8 @@ FAMILIES = {
         sharing=False,
         runs={"quick": [dict(mode="bfs", max_nodes=3), dict(mode="sim", max_nodes=5, min_nodes=4, num=8000, depth=16, procs=8)],
               "thorough": [dict(mode="bfs", max_nodes=4), dict(mode="sim", max_nodes=6, min_nodes=4, num=20000, depth=16, procs=12)]},
+        runs_light={"quick": [dict(mode="bfs", max_nodes=2), dict(mode="sim", max_nodes=5, min_nodes=3, num=8000, depth=16, procs=8)],
+                    "thorough": [dict(mode="bfs", max_nodes=3), dict(mode="sim", max_nodes=6, min_nodes=4, num=20000, depth=16, procs=12)]},
         shards=[["with"], ["ds"], ["dsof"]], shard_defs={"with": "SK_with", "ds": "SK_ds", "dsof": "SK_dsof"}),
     "caching": dict(
         consts=dict(Raises="NoRaises", Kinds="FK_Kinds", Paths="FK_Paths", Consts="FK_Consts", Tmpls="None0",
@@ -114,6 +116,8 @@ FAMILIES = {
         sharing=False,
         runs={"quick": [dict(mode="bfs", max_nodes=3)],
               "thorough": [dict(mode="bfs", max_nodes=4), dict(mode="sim", max_nodes=6, min_nodes=4, num=20000, depth=16, procs=12)]},
+        runs_light={"quick": [dict(mode="bfs", max_nodes=2), dict(mode="sim", max_nodes=4, min_nodes=3, num=8000, depth=14, procs=8)],
+                    "thorough": [dict(mode="bfs", max_nodes=3), dict(mode="sim", max_nodes=6, min_nodes=4, num=20000, depth=16, procs=12)]},
         shards=[["opt"], ["tmpl"]], shard_defs={"opt": "SK_opt", "tmpl": "SK_tmpl"}),
 }
 
@@ -235,7 +239,11 @@ _SIMSTAT = __import__("re").compile(r"The number of states generated: (\d+)")
 
 def run_family(prop, fam, tier, sc, rep):
     """Returns (states, transitions, cases replayed, non-trivial, violations, sample)."""
-    f = FAMILIES[fam]
+    light = fam.endswith(":light")
+    fam = fam.split(":")[0]
+    f = dict(FAMILIES[fam])
+    if light:
+        f["runs"] = f["runs_light"]
     states = trans = 0
     ctx = mp.get_context("fork")
     pool = ctx.Pool(NPROC, initializer=_init_worker, initargs=(prop,))
@@ -355,7 +363,7 @@ def check(prop, tier, fams, level_rule, assumptions):
         "samples": [sample or {"note": "no non-trivial case"}],
         "exhaustive": True,
         "exhaustive_note": "the bfs runs enumerate their family completely; the simulate runs are seeded random samples of larger graphs",
-        "families": {fam: FAMILIES[fam]["runs"][tier] for fam in fams},
+        "families": {fam: FAMILIES[fam.split(":")[0]]["runs_light" if fam.endswith(":light") else "runs"][tier] for fam in fams},
         "invariants_checked_by_tlc": INVARIANTS,
         "violating_cases": len(allviol),
         "known_finding_hits": rep.known_hits,
